@@ -5,7 +5,7 @@ open Io
      render|xform  backend(D|S)  mode(C|G|M)  flags  url_schemes  highlight_language  auto_id_prefix  dup_refs
      then a prefix-coded stream:
        O <n> entries:  split <arg> <strs> | strip|norm|mkid|nlt|nl|gfm <arg> <res> | isdigit <arg> 0|1
-                     | lex <lang> <text> (! | <k> (<classes strs> <value>)*k) | p2d <arg> (~ | F | D <docname>)
+                     | lex <lang> <text> (! | <k> (<classes strs> <value>)*k) | p2d <arg> (~ | F | D <docname>) | p2r <arg> (~ | D <docname>)
        T <n> tokens:   <ty> <tag> <na> (<k> <v>)* <content> <markup> <info> <nm> (<k> <v>)* <map ~|a,b> <nc> children
    flags = all_links_external highlight mathjax_block html_convert footnote_sort footnote_transition (0/1 each)
    Reply: tree " | " warnings, or !<error>. *)
@@ -31,13 +31,14 @@ type tables = {
   mutable t_isdigit : (n list * bool) list;
   mutable t_lex : ((n list * n list) * (n list list * n list) list option) list;
   mutable t_p2d : (n list * n list option option) list;
+  mutable t_p2r : (n list * n list option) list;
 }
 
 let show_key k = field_of_str k
 
 let parse_oracles (r : string list) : tables * string list =
   let tb = { t_split = []; t_strip = []; t_norm = []; t_mkid = []; t_nlt = []; t_nl = []; t_gfm = []; t_isdigit = [];
-             t_lex = []; t_p2d = [] } in
+             t_lex = []; t_p2d = []; t_p2r = [] } in
   match r with
   | "O" :: r ->
       let (n, r) = take_int r in
@@ -59,6 +60,8 @@ let parse_oracles (r : string list) : tables * string list =
                 | c :: v :: r -> ((strs_of_field c, str_of_field v), r)
                 | _ -> failwith "eof-lex") [] r in
             tb.t_lex <- ((str_of_field l, str_of_field t), Some toks) :: tb.t_lex; go (n-1) r
+        | "p2r" :: a :: "~" :: r -> tb.t_p2r <- (str_of_field a, None) :: tb.t_p2r; go (n-1) r
+        | "p2r" :: a :: "D" :: d :: r -> tb.t_p2r <- (str_of_field a, Some (str_of_field d)) :: tb.t_p2r; go (n-1) r
         | "p2d" :: a :: "~" :: r -> tb.t_p2d <- (str_of_field a, None) :: tb.t_p2d; go (n-1) r
         | "p2d" :: a :: "F" :: r -> tb.t_p2d <- (str_of_field a, Some None) :: tb.t_p2d; go (n-1) r
         | "p2d" :: a :: "D" :: d :: r -> tb.t_p2d <- (str_of_field a, Some (Some (str_of_field d))) :: tb.t_p2d; go (n-1) r
@@ -93,6 +96,7 @@ let oracles_of (tb : tables) : oracles = {
       | Some v -> v
       | None -> miss "lex" (show_key l ^ ":" ^ show_key t) None);
   o_gfm_filter = (fun a -> lookup "gfm" tb.t_gfm a []);
+  o_p2d_raw = (fun a -> lookup "p2r" tb.t_p2r a None);
   o_path2doc = (fun a -> lookup "p2d" tb.t_p2d a None);
 }
 
@@ -169,6 +173,15 @@ let handle (fs : string list) : string =
       let (toks, _) = parse_toks rest in
       let o = oracles_of tb in
       misses := [];
+      if cmd = "skel" then begin
+        let b2s b = if b then "1" else "0" in
+        let r = faithful_check backend c o toks in
+        if !misses <> [] then "!miss " ^ String.concat " " (List.rev !misses) else
+        (match r with
+         | Bad e -> show_err e
+         | Good (((st, dr), eq), ((so, tr), ro)) ->
+             "S " ^ b2s st ^ b2s dr ^ b2s eq ^ b2s so ^ b2s tr ^ b2s ro)
+      end else
       let res = (match cmd with
           | "render" -> render_doc backend c o toks
           | "xform" -> render_xform backend c o toks
